@@ -9,6 +9,7 @@ import (
 	"runtime/debug"
 	"runtime/pprof"
 	"sort"
+	"strings"
 	"time"
 )
 
@@ -28,6 +29,7 @@ type Spec struct {
 	MaxShrink int      `json:"max_shrink"`
 	Race      bool     `json:"race"`
 	Procs     int      `json:"procs"`
+	RaceLog   string   `json:"race_log,omitempty"`
 }
 
 // Found is one violation found by a child, already minimised.
@@ -145,6 +147,11 @@ func ChildMain(sims map[string]SimFunc) bool {
 		for _, v := range c.All() {
 			out.Found = append(out.Found, Found{Sig: v.Sig(), V: *v, Sim: sp.Sim, Tier: sp.Tier, Tape: c.Rec, Log: c.Lines, LogFP: fmt.Sprintf("%016x", c.Fingerprint()), Count: 1})
 		}
+		if sp.RaceLog != "" {
+			for _, rr := range newRaceScanner(sp.RaceLog).Scan() {
+				out.Found = append(out.Found, Found{Sig: rr.Sig, V: Violation{Clause: "no-race", Kind: "race", Where: strings.TrimPrefix(rr.Sig, "no-race/race@"), Detail: rr.Text}, Sim: sp.Sim, Tier: sp.Tier, Race: true, Tape: c.Rec, Log: c.Lines, LogFP: fmt.Sprintf("%016x", c.Fingerprint()), Count: 1})
+			}
+		}
 		finish(0)
 	}
 	if sp.Mode == "fplist" {
@@ -166,6 +173,10 @@ func ChildMain(sims map[string]SimFunc) bool {
 		}
 		os.WriteFile(sp.Out+".fplist", lines, 0o644)
 		finish(0)
+	}
+	var rs *raceScanner
+	if sp.RaceLog != "" {
+		rs = newRaceScanner(sp.RaceLog)
 	}
 	fps := map[uint64]struct{}{}
 	states := map[uint64]struct{}{}
@@ -214,6 +225,23 @@ func ChildMain(sims map[string]SimFunc) bool {
 				l = append(append([]string{}, l[:40]...), fmt.Sprintf("… %d more events …", len(l)-40))
 			}
 			out.Samples = append(out.Samples, append([]string{fmt.Sprintf("run=%d tape_seed=%d", run, tseed)}, l...))
+		}
+		if rs != nil {
+			// the detector reports each distinct race once per process: attribute
+			// new reports to the run that was in progress (not minimised here)
+			for _, rr := range rs.Scan() {
+				if rr.Harness {
+					out.Bug = fmt.Sprintf("run %d: data race inside the harness:\n%s", run, rr.Text)
+					finish(2)
+				}
+				if i, ok := seen[rr.Sig]; ok {
+					out.Found[i].Count++
+					continue
+				}
+				seen[rr.Sig] = len(out.Found)
+				out.Found = append(out.Found, Found{Sig: rr.Sig, V: Violation{Clause: "no-race", Kind: "race", Where: strings.TrimPrefix(rr.Sig, "no-race/race@"), Detail: rr.Text},
+					Seed: sp.Seed, Run: run, Sim: sp.Sim, Tier: sp.Tier, Race: true, OrigLen: len(c.Rec), Tape: c.Rec, Log: c.Lines, LogFP: fmt.Sprintf("%016x", c.Fingerprint()), Count: 1})
+			}
 		}
 		for _, viol := range c.All() {
 			sig := viol.Sig()
